@@ -176,6 +176,8 @@ pub fn child(case_text: &str) {
     let state = Rc::new(RefCell::new((hist, 0usize, pre)));
     let st = state.clone();
     let p2 = path.clone();
+    let running = Arc::new(AtomicBool::new(true));
+    let run2 = running.clone();
     verif_hooks::install(Hooks {
         follow_retry: Some(Box::new(move || {
             let mut s = st.borrow_mut();
@@ -190,6 +192,8 @@ pub fn child(case_text: &str) {
                         f.write_all(&content[w..w + n as usize]).unwrap();
                         s.2 += n as usize;
                     }
+                    // the user's ctrl-c while the reader waits for input: the handler clears `running`
+                    "I" => { run2.store(false, std::sync::atomic::Ordering::SeqCst); }
                     "R" => { println!("\u{1}R"); return FollowAction::Continue; }
                     _ => { println!("\u{1}S"); return FollowAction::Stop; }
                 }
@@ -200,7 +204,7 @@ pub fn child(case_text: &str) {
     let mut opts = DisplayOptions::default();
     opts.output_format = OutputFormat::Json;
     let engine = sqlgrep::ExecutionEngine::new(&tables, &stmt);
-    let mut ex = FollowFileExecutor::new(Arc::new(AtomicBool::new(true)), File::open(&path).unwrap(), head, opts, engine).unwrap();
+    let mut ex = FollowFileExecutor::new(running, File::open(&path).unwrap(), head, opts, engine).unwrap();
     let r = ex.execute();
     println!("\u{1}END {}", if r.is_ok() { "ok" } else { "err" });
     cleanup_scratch();
@@ -229,8 +233,9 @@ pub fn replay_exec(cases: &[J]) -> J {
             }
         }
         let exp_delivered: Vec<Vec<u8>> = case["delivered"].as_array().unwrap().iter().map(|l| String::from_utf8_lossy(&bytes_of(l)).into_owned().into_bytes()).collect();
-        let exp_counts: Vec<u64> = parse_hist(case).iter().filter(|(e, _)| e != "A").map(|(_, n)| *n).collect();
-        let exp_failed = case["failed"].as_bool().unwrap();
+        let exp_counts: Vec<u64> = parse_hist(case).iter().filter(|(e, _)| e == "R" || e == "S").map(|(_, n)| *n).collect();
+        // the run ends by itself when the iterator fails (a listed deviation) or when the executor meets the cleared flag (halted)
+        let exp_failed = case["failed"].as_bool().unwrap() || case["halted"].as_bool().unwrap_or(false);
         let stopped = stdout.contains("\u{1}S");
         let observed = json!({"delivered": delivered.iter().map(|l| jbytes(l)).collect::<Vec<_>>(), "counts": counts,
                               "ended": ended, "status": out.status.code(), "stopped_by_hook": stopped});
@@ -240,7 +245,8 @@ pub fn replay_exec(cases: &[J]) -> J {
             rep.mismatch(case, json!({"delivered": case["delivered"], "counts": exp_counts, "failed": exp_failed}), observed,
                          "FollowFileExecutor differs from Follow.tla");
         } else {
-            if exp_failed { rep.dev_witness("FollowUtf8Split", case); }
+            if case["failed"].as_bool().unwrap() { rep.dev_witness("FollowUtf8Split", case); }
+            if case["halted"].as_bool().unwrap_or(false) { rep.count("halted_by_interrupt"); }
             rep.ok(case, case.to_string(), !exp_delivered.is_empty());
         }
     }
